@@ -345,7 +345,9 @@ func runHistMigScenario(r *lib.Run, idx int) {
 				switch {
 				case strings.Contains(name, "other-retention") && collapse != "":
 					class = collapse
-				case !strings.Contains(name, "other-retention") && kn:
+				case kn:
+					// (also when the restart uses another retention and a record of an EARLIER, cancelled
+					// start exists: it is older than what the dead start had already wiped)
 					// the progress record (written only when a start is cancelled) is missing or older than
 					// the destructive steps already committed: the restart stages from wiped history or
 					// restores from a wiped scratch copy
